@@ -270,15 +270,29 @@ def cache_guard_rule(model: Model, run: Run, folder: Folder) -> None:
         if isinstance(c, ast.Call) and isinstance(c.func, ast.Attribute) and c.func.attr in ('pop', 'remove', '__delitem__') and dotted(c.func.value) in got and c.args:
             v = folder.fold(c.args[0], pp.module)
             popped.add(v if v is not UNKNOWN else norm(c.args[0]))
-    store = [n for n in walk_no_nested(un.node) if isinstance(n, ast.Assign) and dotted(n.targets[0]) == 'cls.cached' and not (isinstance(n.value, ast.Constant) and n.value.value is None)]
-    excluded = set()
-    if store:
-        for f_ in facts(Loc(model, un), store[0]):
+    # every case in which something other than None is stored in cls.cached, with the facts of that case
+    from ..alpha import value_cases
+
+    ul_ = Loc(model, un)
+    store = []
+    case_facts: list[set[str]] = []
+    for n in walk_no_nested(un.node):
+        if isinstance(n, ast.Assign) and dotted(n.targets[0]) == 'cls.cached':
+            for fs, v in value_cases(ul_, n, n.value):
+                if not (isinstance(v, ast.Constant) and v.value is None):
+                    store.append(n)
+                    case_facts.append(fs)
+    excluded: set | None = None
+    for fs in case_facts:
+        ex = set()
+        for f_ in fs:
             m_ = re.fullmatch(r'([\w.]+) not in .+', f_)
             if m_:
                 e_ = ast.parse(m_.group(1), mode='eval').body
                 v = folder.fold(e_, un.module, un.cls)
-                excluded.add(v if v is not UNKNOWN else m_.group(1))
+                ex.add(v if v is not UNKNOWN else m_.group(1))
+        excluded = ex if excluded is None else (excluded & ex)
+    excluded = excluded or set()
     missing = popped - excluded
     run.check(bool(store) and bool(popped) and not missing, un.qualname, 'caching guard excludes %s; consumers pop %s' % (sorted(map(str, excluded)), sorted(map(str, popped))), un.loc(store[0]) if store else un.loc(), 'attribute code(s) %s are popped from the returned collection by _parse_payload but a collection holding them can be cached: the first decode strips the shared object and the next identical block loses those routes' % sorted(map(str, missing)))
     # key and value of the one-entry memo move together
